@@ -195,7 +195,7 @@ fn spill_catalog(r: &mut Rng) -> Catalog {
         let mut cuts: Vec<usize> = (0..k - 1).map(|_| r.below(n as u64 + 1) as usize).collect();
         cuts.push(0); cuts.push(n); cuts.sort();
         let cuts: Vec<usize> = cuts.windows(2).map(|w| w[1] - w[0]).collect();
-        tables.push(TableSpec { name: format!("g{}", t), cols, rows, cuts });
+        tables.push(TableSpec { cluster: None, name: format!("g{}", t), cols, rows, cuts });
     }
     Catalog { tables }
 }
